@@ -70,4 +70,22 @@ func TimeHeap.Clear
   modifies h.total, h.heap, ghost(sumOf), allelems(*timeHeapEntry)
   loop 1 invariant held(*h.lock) && (forall a Int :: sel(sumOf, a) >= 0) && (len(h.heap) == 0 ==> sel(sumOf, addr(h.heap)) == 0)
   ensures unlocked(*h.lock)
+
+-- the heap's own Push (the container/heap callback): a bare append that knows nothing of the heap order - the ghost
+-- accounting of the heap's contents is container/heap's, so a direct call leaves it behind
+func timeHeap.Push
+  requires h != nil && x != nil && typeof(x) == typeid(*timeHeapEntry)
+  modifies *h, allelems(*timeHeapEntry)
+  ensures len(*h) == old(len(*h)) + 1
+
+-- AveragePerSecond: expired entries leave the heap and the total; the first entry that is still inside the window goes
+-- back in THROUGH container/heap (which restores the order: a bare append would leave the oldest entry at the tail, where
+-- later calls do not look for it); total stays the sum of what is in the heap
+func TimeHeap.AveragePerSecond
+  requires h != nil && h.lock != nil && unlocked(*h.lock)
+  modifies everything
+  opt assume-no-overflow
+  loop 1 invariant held(*h.lock) && (forall a Int :: sel(sumOf, a) >= 0) && h.total == sel(sumOf, addr(h.heap)) && (len(h.heap) == 0 ==> sel(sumOf, addr(h.heap)) == 0)
+  loop 1 invariant len(h.heap) + rangeint.iter >= lenHeap
+  ensures unlocked(*h.lock)
 @*/
